@@ -22,19 +22,24 @@
 (* Source = "enum": TLC enumerates tree x linelen x maxlines x linebreakok *)
 (* and prints the predicted text (spec -> code).  Source = "file": outputs *)
 (* OBSERVED from the real colorize_pyval are read and the contract is      *)
-(* evaluated on them (code -> spec).                                       *)
+(* evaluated on them (code -> spec).  Source = "segs": _output itself, fed  *)
+(* with ONE text of up to three lines at every starting column and line    *)
+(* length (the astor fallback hands such multi-line text to _output): the  *)
+(* remainder of a wrapped line must come right after its head, before the  *)
+(* following lines (OrderKept).                                            *)
 (***************************************************************************)
 EXTENDS Integers, Sequences, FiniteSets, TLC, Json, IOUtils
 
-CONSTANTS Source,       \* "enum" | "file"
+CONSTANTS Source,       \* "enum" | "file" | "segs"
+          SegMax, ColMax, \* "segs": lines of 0..SegMax characters, text starting at column 0..ColMax
           MaxLineLen,   \* linelen ranges over 0..MaxLineLen (0 = unlimited)
           MaxMaxLines,  \* maxlines ranges over 0..MaxMaxLines (0 = unlimited)
           Fixed
 
 Data == JsonDeserialize(IOEnv.LAYOUT_FILE)      \* "enum": the trees; "file": the observations
 
-VARIABLES ti, ll, ml, lbok
-vars == <<ti, ll, ml, lbok>>
+VARIABLES ti, ll, ml, lbok, col, lens
+vars == <<ti, ll, ml, lbok, col, lens>>
 
 E == INSTANCE Expr WITH Mode <- "layout", CmpUsed <- {}, Open <- {}, Fixed <- Fixed, n <- 0, x1 <- 0, x2 <- 0, frm <- 0
 
@@ -132,6 +137,8 @@ Col(st, p, i, t) ==
    IF st.exc # "none" THEN st
    ELSE CASE t.k = "Name" -> Out(st, t.op, TRUE)                                  \* link: never broken
           [] t.k = "Num" -> Out(st, t.op, FALSE)
+          \* _colorize_ast_generic (:762-769): astor's text, possibly several lines, in ONE _output call
+          [] t.k = "Text" -> Out(st, t.op, FALSE)
           [] t.k = "Str" -> ColStr(st, t.op)
           [] t.k \in {"Unary", "Bin", "Bool"} -> OpDelim(st, E!ImplOpParen(p, i, t), t)
           [] t.k \in {"List", "Tuple"} -> Multi(st, "iter", t, 1)
@@ -182,17 +189,40 @@ Marked(full, shown, complete) ==
    /\ ~complete => (shown # <<>> /\ Last(shown) = "ELL")           \* visibly truncated
 
 \* ------------------------------------------------------------------------ cases
-Init == /\ ti \in 1..Len(Data)
-        \* linebreakok = FALSE is the inline configuration (colorize_inline_pyval): no line length there
-        /\ IF Source = "enum" THEN /\ lbok \in BOOLEAN /\ ml \in 0..MaxMaxLines
-                                   /\ ll \in (IF lbok THEN 0..MaxLineLen ELSE {0})
-           ELSE ll = Data[ti].linelen /\ ml = Data[ti].maxlines /\ lbok = Data[ti].lbok
+RECURSIVE SeqsUpTo(_, _)
+SeqsUpTo(S, k) == IF k = 0 THEN {<<>>}
+                  ELSE SeqsUpTo(S, k - 1) \cup {Append(x, y) : x \in {z \in SeqsUpTo(S, k - 1) : Len(z) = k - 1}, y \in S}
+Init == \/ /\ Source \in {"enum", "file"} /\ col = 0 /\ lens = <<>>
+           /\ ti \in 1..Len(Data)
+           \* linebreakok = FALSE is the inline configuration (colorize_inline_pyval): no line length there
+           /\ IF Source = "enum" THEN /\ lbok \in BOOLEAN /\ ml \in 0..MaxMaxLines
+                                      /\ ll \in (IF lbok THEN 0..MaxLineLen ELSE {0})
+              ELSE ll = Data[ti].linelen /\ ml = Data[ti].maxlines /\ lbok = Data[ti].lbok
+        \/ /\ Source = "segs" /\ ti = 0 /\ lbok = TRUE
+           /\ ll \in 1..MaxLineLen /\ ml \in {0, MaxMaxLines} /\ col \in 0..ColMax
+           /\ lens \in (SeqsUpTo(0..SegMax, 3) \ {<<>>})
 Next == FALSE /\ UNCHANGED vars
 Spec == Init /\ [][Next]_vars
 
 \* design level: the contract on the transcription's own output (full = the same value with no limits)
 Full(t) == Col(St0(0, 0), E!Root, 1, t).out
-Emit == IF Source = "enum"
+\* ---- "segs": one multi-line text through _output
+Chars == <<"a", "b", "c", "d", "e", "f", "g", "h", "i", "j", "k", "m", "o", "q", "r", "s", "t", "u", "v", "w", "x", "y", "z">>
+RECURSIVE SegText(_, _, _)
+SegText(ls, j, off) == IF j > Len(ls) THEN <<>>
+                       ELSE (IF j > 1 THEN <<"nl">> ELSE <<>>) \o SubSeq(Chars, off + 1, off + ls[j]) \o SegText(ls, j + 1, off + ls[j])
+SegPrefix == [j \in 1..col |-> "p"]
+SegRun == Out(Out(St0(ll, ml), SegPrefix, FALSE), SegText(lens, 1, 0), FALSE)
+\* nothing raised => reading across the wrap marks gives prefix + text, every character in its place
+OrderKept(st) == st.exc = "none" =>
+                    [j \in DOMAIN Unwrap(st.out) |-> IF Unwrap(st.out)[j] = "NL" THEN "nl" ELSE Unwrap(st.out)[j]]
+                    = SegPrefix \o SegText(lens, 1, 0)
+DesignOrderKept == Source = "segs" => OrderKept(SegRun)
+Emit == IF Source = "segs"
+          THEN LET r == SegRun IN
+               PrintT(ToJson([ll |-> ll, ml |-> ml, col |-> col, lens |-> lens, text |-> SegText(lens, 1, 0), out |-> r.out,
+                              cp |-> r.cp, ln |-> r.ln, exc |-> r.exc, kept |-> OrderKept(r)]))
+        ELSE IF Source = "enum"
           THEN LET c == Colorize(Data[ti]) IN
                PrintT(ToJson([ti |-> ti, ll |-> ll, ml |-> ml, lbok |-> lbok, text |-> c.text, complete |-> c.complete,
                               marked |-> Marked(Full(Data[ti]), c.text, c.complete)]))
